@@ -10,5 +10,6 @@ CONSTANTS
   Questions <- Q0
   AllowEnd = FALSE
   MaxRequery = 0
+  FixCommitState = TRUE
 INVARIANTS EmitAll
 CHECK_DEADLOCK FALSE
